@@ -29,7 +29,10 @@ def replay_thr(arg):
     from perception_eval.common.threshold import set_thresholds
 
     tree, n, nest, out = arg
+    import copy
+
     py = to_py(tree)
+    py0 = copy.deepcopy(py)
     rep = {"tree": tree, "python": repr(py), "n": n, "nest": nest, "spec": out}
     try:
         got = set_thresholds(py, n, nest)
@@ -38,6 +41,8 @@ def replay_thr(arg):
         got = "raised %s" % type(ex).__name__
         ok = False
     rep["impl"] = repr(got)
+    if repr(py) != repr(py0):
+        return [("specification-rewritten", "set_thresholds(%r, %d, %s) rewrote its argument to %r" % (py0, n, nest, py), rep)]
     if out[0] == "err":
         if ok:
             has_bad = "bad" in json.dumps(tree)
